@@ -83,6 +83,23 @@ func (o *c05wObs) After(w *wWorld, st *wStep) *kit.Viol {
 		}
 		u := w.sess[sess].user
 		self := w.users[u].uid
+		if st.Op.K == "pub" && !st.Skipped && st.code() == 202 && w.users[u].level < 30 && !o.tainted[st.Route] {
+			// behaviour follows want AND given, never one of them alone
+			for _, f := range st.Frames[sess] {
+				if f.Data == nil || f.Data.Content != st.Token {
+					continue
+				}
+				row := st.Route
+				if at, ok := o.preAtt[sess][st.Route]; ok && at.Chan {
+					continue
+				}
+				if a, ok := pre[subKey{row, self}]; ok && !a.deleted && !(a.want & a.given).IsReader() && (a.want.IsReader() || a.given.IsReader()) {
+					if b, ok := now[subKey{row, self}]; ok && b == a {
+						return kit.V("acted-on-one-side-of-the-mode", "session %d of user %d received the copy of %s on %s although want/given are %v/%v: the effective permission is their intersection", sess, u, st.Token, row, a.want, a.given)
+					}
+				}
+			}
+		}
 		for _, f := range st.Frames[sess] {
 			p := f.Pres
 			if p == nil || p.What != "acs" {
